@@ -15,15 +15,17 @@ EXTENDS Integers, Sequences, TLC
 CONSTANTS Conns,      \* 0: stream starts connected, 1: starts inside connect()
           Causes      \* subset of {"close", "closeexc", "eof", "reset"}
 
-VARIABLES cfg, rd, wr, co, st, ccb, cbl, raised, step
-vars == <<cfg, rd, wr, co, st, ccb, cbl, raised>>
+VARIABLES cfg, rd, wr, co, st, ccb, cbl, raised,
+          dl,     \* 1 once the bytes the read asked for have arrived (offered once)
+          step
+vars == <<cfg, rd, wr, co, st, ccb, cbl, raised, dl>>
 
 Proj == [rd |-> rd, wr |-> wr, co |-> co, st |-> st, ccb |-> ccb, cbl |-> cbl, raised |-> raised]
 Obs(a) == [act |-> a, args |-> <<>>, exp |-> Proj']
 
 InitWith(c) ==
     /\ cfg = c /\ rd = "none" /\ wr = "none" /\ co = (IF c.conn = 1 THEN "pending" ELSE "none")
-    /\ st = "open" /\ ccb = 0 /\ cbl = "na" /\ raised = 0
+    /\ st = "open" /\ ccb = 0 /\ cbl = "na" /\ raised = 0 /\ dl = 0
     /\ step = [act |-> "init", args |-> <<>>, exp |-> [rd |-> "none", wr |-> "none",
                co |-> (IF c.conn = 1 THEN "pending" ELSE "none"), st |-> "open", ccb |-> 0, cbl |-> "na", raised |-> 0]]
 InitState == \E c \in [conn : Conns] : InitWith(c)
@@ -31,31 +33,38 @@ InitState == \E c \in [conn : Conns] : InitWith(c)
 Usable == st = "open" /\ co \in {"none", "ok"}
 
 (* read_bytes(n) with nothing buffered / write() with a transport that takes nothing *)
-Read  == Usable /\ rd = "none" /\ rd' = "pending" /\ UNCHANGED <<cfg, wr, co, st, ccb, cbl, raised>> /\ step' = Obs("read")
-Write == Usable /\ wr = "none" /\ wr' = "pending" /\ UNCHANGED <<cfg, rd, co, st, ccb, cbl, raised>> /\ step' = Obs("write")
-ConnOk == st = "open" /\ co = "pending" /\ co' = "ok" /\ UNCHANGED <<cfg, rd, wr, st, ccb, cbl, raised>> /\ step' = Obs("connok")
+Read  == Usable /\ rd = "none" /\ rd' = "pending" /\ UNCHANGED <<cfg, wr, co, st, ccb, cbl, raised, dl>> /\ step' = Obs("read")
+Write == Usable /\ wr = "none" /\ wr' = "pending" /\ UNCHANGED <<cfg, rd, co, st, ccb, cbl, raised, dl>> /\ step' = Obs("write")
+ConnOk == st = "open" /\ co = "pending" /\ co' = "ok" /\ UNCHANGED <<cfg, rd, wr, st, ccb, cbl, raised, dl>> /\ step' = Obs("connok")
 
 (* the application cancels a future it was given; the stream is not told *)
-CancelRd == st = "open" /\ rd = "pending" /\ rd' = "cancelled" /\ UNCHANGED <<cfg, wr, co, st, ccb, cbl, raised>> /\ step' = Obs("cancelrd")
-CancelWr == st = "open" /\ wr = "pending" /\ wr' = "cancelled" /\ UNCHANGED <<cfg, rd, co, st, ccb, cbl, raised>> /\ step' = Obs("cancelwr")
-CancelCo == st = "open" /\ co = "pending" /\ co' = "cancelled" /\ UNCHANGED <<cfg, rd, wr, st, ccb, cbl, raised>> /\ step' = Obs("cancelco")
+CancelRd == st = "open" /\ rd = "pending" /\ rd' = "cancelled" /\ UNCHANGED <<cfg, wr, co, st, ccb, cbl, raised, dl>> /\ step' = Obs("cancelrd")
+CancelWr == st = "open" /\ wr = "pending" /\ wr' = "cancelled" /\ UNCHANGED <<cfg, rd, co, st, ccb, cbl, raised, dl>> /\ step' = Obs("cancelwr")
+CancelCo == st = "open" /\ co = "pending" /\ co' = "cancelled" /\ UNCHANGED <<cfg, rd, wr, st, ccb, cbl, raised, dl>> /\ step' = Obs("cancelco")
+
+(* the bytes the read asked for arrive: a pending read completes; a cancelled one stays cancelled (the stream
+   finishes its read quietly) *)
+Deliver == /\ Usable /\ rd \in {"pending", "cancelled"} /\ dl = 0
+           /\ dl' = 1 /\ rd' = (IF rd = "pending" THEN "ok" ELSE rd)
+           /\ UNCHANGED <<cfg, wr, co, st, ccb, cbl, raised>> /\ step' = Obs("deliver")
 
 Fail(x) == IF x = "pending" THEN "closed" ELSE x
 (* close(), close(exc_info), or the peer's EOF / reset noticed by a stream that is reading *)
 Close(c) ==
     /\ st = "open"
-    /\ c \in {"eof", "reset"} => (rd \in {"pending", "cancelled"} /\ co \in {"none", "ok"})
+    /\ c \in {"eof", "reset"} => (rd \in {"pending", "cancelled"} /\ co \in {"none", "ok"} /\ dl = 0)
     /\ st' = "closed" /\ rd' = Fail(rd) /\ wr' = Fail(wr) /\ co' = Fail(co)
     /\ ccb' = ccb + 1 /\ cbl' = "yes"
-    /\ UNCHANGED <<cfg, raised>>
+    /\ UNCHANGED <<cfg, raised, dl>>
     /\ step' = Obs(c)
 
-Next == Read \/ Write \/ ConnOk \/ CancelRd \/ CancelWr \/ CancelCo \/ \E c \in Causes : Close(c)
+Next == Read \/ Write \/ Deliver \/ ConnOk \/ CancelRd \/ CancelWr \/ CancelCo \/ \E c \in Causes : Close(c)
 Spec == InitState /\ [][Next]_<<vars, step>>
 
 ----------------------------------------------------------------------------
 Done(x) == x \in {"cancelled", "closed", "ok"}
-TypeOK == /\ {rd, wr} \subseteq {"none", "pending", "cancelled", "closed"}
+TypeOK == /\ wr \in {"none", "pending", "cancelled", "closed"}
+          /\ rd \in {"none", "pending", "cancelled", "closed", "ok"}
           /\ co \in {"none", "pending", "cancelled", "closed", "ok"}
           /\ st \in {"open", "closed"}
 (* whenever the stream is closed, nothing is left pending *)
